@@ -2,6 +2,7 @@ package checks
 
 import (
 	"fmt"
+	"regexp"
 	"sort"
 	"strings"
 
@@ -9,6 +10,8 @@ import (
 	"vh/outmon"
 	"vh/scen"
 )
+
+var reNotationLine17 = regexp.MustCompile(`^\s*//\s*:[a-z]`)
 
 func init() { Registry["C17"] = RunC17 }
 
@@ -136,6 +139,24 @@ func judgeC17(rep *core.Report, c *CaseResult) {
 			rep.Violate(&core.Violation{Property: "C17", Monitor: "selection", Symptom: "unmarked-interface-doc-gained-foreign-comment", Features: feat2, Case: s.ID,
 				Detail: fmt.Sprintf("interface %s: doc comment gained %q", name, stray), Files: c.ReplayFiles()})
 			continue
+		}
+		if od.Text != d.Text && strings.HasPrefix(name, "Base") && strings.Contains(s.Features["layout.vector"], "embeds-plain-notated") {
+			// an ordinary interface that a converter interface embeds: the notation lines on its methods act as
+			// notations of generated functions, which C11 wants absent from the output; compared modulo them
+			strip := func(t string) string {
+				var kept []string
+				for _, l := range strings.Split(t, "\n") {
+					if !reNotationLine17.MatchString(l) && strings.TrimSpace(l) != "" {
+						kept = append(kept, l)
+					}
+				}
+				return strings.Join(kept, "\n")
+			}
+			if strip(od.Text) == strip(d.Text) {
+				rep.Count("unmarked_interfaces_intact", 1)
+				rep.Count("embedded_plain_interface_compared_modulo_notation_lines", 1)
+				continue
+			}
 		}
 		if od.Text != d.Text {
 			// go:generate directives must go (C11); compare modulo those lines
